@@ -96,6 +96,7 @@ func c0102(rep *ev.Reporter, tier string, judge func(c *Case, tr *hx.Trace, w *r
 		emit := func(c Case) {
 			c.ReuseDC = true // applies to programs calling Forget / Changed
 			c.Histories = true
+			c.JSONProv = true
 			emit0(c)
 		}
 		depMatrix(nShapes, maxCycle, emit)
